@@ -23,9 +23,12 @@ abbrev Bytes := List Nat
 
 /-! ### varint, little-endian fixed width -/
 
-def encVarint (n : Nat) : Bytes :=
-  if n < 128 then [n] else (n % 128 + 128) :: encVarint (n / 128)
-decreasing_by omega
+/-- structural in the fuel, so that `decide` can evaluate concrete encodings; `n` itself always suffices as fuel -/
+def encVarintF : Nat → Nat → Bytes
+  | 0, n => [n]
+  | f + 1, n => if n < 128 then [n] else (n % 128 + 128) :: encVarintF f (n / 128)
+
+def encVarint (n : Nat) : Bytes := encVarintF n n
 
 def decVarint : Bytes → Option (Nat × Bytes)
   | [] => none
